@@ -70,6 +70,10 @@ static void prop_c04(Tape &t, Result &r) {
   gp::Program p = g.generate();
   gp::normalise(p);
   gp::Layout L = gp::layout_free(p, lt, nfiles);
+  if (L.blank_includes) r.cls("layout:include-of-a-file-without-tokens");
+  if (L.body_includes) r.cls("layout:include-inside-a-macro-body");
+  if (L.main.rfind("__", 0) == 0) r.cls("layout:file-names-starting-with-__");
+  if (L.main.rfind("Cc/", 0) == 0) r.cls("layout:file-names-differing-in-case-only");
   glue::Files files = L.files;
   bool mutated = false;
   if (mode == 1) {
@@ -201,6 +205,23 @@ static void prop_c16r(Tape &t, Result &r) {
   glue::Files files;
   std::string maintext;
   bool split = t.chance(1, 3);
+  // number of parameters per definition (0, 1 or 2) and of arguments per call: usually the callee's (by name: the
+  // last arity chosen for that name), sometimes none at all or one too many
+  std::vector<int> arity;
+  for (int i = 0; i < k; i++) arity.push_back((int)t.weighted({2, 5, 2}));
+  auto args = [&](const std::string &callee, const std::string &first) {
+    int n = 1;
+    for (int j = 0; j < k; j++)
+      if (names[(size_t)j] == callee) n = arity[(size_t)j];
+    switch (t.weighted({6, 2, 1})) {
+      case 1: n = 0; break;
+      case 2: n++; break;
+      default: break;
+    }
+    std::string a;
+    for (int j = 0; j < n; j++) a += (j ? ", " : "") + (j ? std::string("x1") : first);
+    return a.empty() ? std::string(" ") : " " + a + " ";
+  };
   for (int i = 0; i < k; i++) {
     // call target: self, later, earlier, undefined, none
     std::string callee;
@@ -214,12 +235,13 @@ static void prop_c16r(Tape &t, Result &r) {
     std::string body = "x0 := a";
     if (!callee.empty()) {
       switch (t.pick(3)) {
-        case 0: body = "x0 := RUN " + callee + " WITH a END"; break;
-        case 1: body = "LOOP a DO x0 := RUN " + callee + " WITH RUN " + callee + " WITH x0 END END END"; break;
-        case 2: body = "x1 := a + 1; IF a = 0 THEN GOTO e; x0 := RUN " + callee + " WITH a - 1 END; e: x0 := x0 + 1"; break;
+        case 0: body = "x0 := RUN " + callee + " WITH" + args(callee, "a") + "END"; break;
+        case 1: body = "LOOP a DO x0 := RUN " + callee + " WITH" + args(callee, "RUN " + callee + " WITH" + args(callee, "x0") + "END") + "END END"; break;
+        case 2: body = "x1 := a + 1; IF a = 0 THEN GOTO e; x0 := RUN " + callee + " WITH" + args(callee, "a - 1") + "END; e: x0 := x0 + 1"; break;
       }
     }
-    std::string def = "PROGRAM " + names[(size_t)i] + " IN a DO " + body + " END\n";
+    static const char *PORTS[] = {" ", " IN a ", " IN a, b "};
+    std::string def = "PROGRAM " + names[(size_t)i] + PORTS[arity[(size_t)i]] + "DO " + body + " END\n";
     if (split && t.chance(1, 2)) {
       std::string fn = "def" + std::to_string(i) + ".theo";
       files[fn] = def;
@@ -228,7 +250,7 @@ static void prop_c16r(Tape &t, Result &r) {
       maintext += def;
   }
   std::string target = t.chance(1, 8) ? "nowhere" : names[t.pick((unsigned)k)];
-  maintext += "x0 := RUN " + target + " WITH 3 END\n";
+  maintext += "x0 := RUN " + target + " WITH" + args(target, "3") + "END\n";
   files["main.theo"] = maintext;
   if (split) r.cls("definitions-in-included-files");
   std::set<std::string> uniq(names.begin(), names.end());
